@@ -142,4 +142,32 @@ example : (PSO.NodeSend.restartNode PSO.Bridge.exLeaderR 2 (some (PSO.Bridge.exL
   refine ⟨by decide, ?_⟩
   exact restart_twice_is_restart_once _ _ _
 
+/-- **The hypothesis `DumpHeld` of `restart_handler_refines` along a run**: it holds when the node's own compaction writes the
+dump (the dump's entries are `__getEntries(lastApplied - 1, 2)` of the journal at that moment) … -/
+theorem dump_held_when_written (log : List PSO.NodeSend.Entry) (k : Nat) (p l : PSO.NodeSend.Entry)
+    (h : PSO.NodeSend.getEntries log (some k) (some 2) none = some [p, l]) (hk : p.idx = k) :
+    PSO.Bridge.DumpHeld log p l := by
+  exact PSO.Bridge.dumpHeld_of_getEntries log k p l h hk
+
+/-- … it is kept when entries are appended (leader: new commands; follower: accepted `append_entries`) … -/
+theorem dump_held_after_append (log es : List PSO.NodeSend.Entry) (p l : PSO.NodeSend.Entry)
+    (h : PSO.Bridge.DumpHeld log p l) : PSO.Bridge.DumpHeld (log ++ es) p l := by
+  exact PSO.Bridge.dumpHeld_append log es p l h
+
+/-- … and when a conflicting suffix is cut that begins behind the dump's second entry (`deleteEntriesFrom`; the dump's
+entries are applied, hence committed, and a follower never cuts committed entries: C04). -/
+theorem dump_held_after_suffix_cut (log : List PSO.NodeSend.Entry) (m : Nat) (p l e0 : PSO.NodeSend.Entry)
+    (h : PSO.Bridge.DumpHeld log p l) (he0 : log.head? = some e0) (hm : p.idx - e0.idx + 2 ≤ m) :
+    PSO.Bridge.DumpHeld (log.take m) p l := by
+  exact PSO.Bridge.dumpHeld_take log m p l h e0 he0 hm
+
+/-- Non-vacuity: the example leader's journal holds the dump at index 3, also after an append and after a cut at 3 entries. -/
+example : PSO.Bridge.DumpHeld PSO.Bridge.exLeaderR.log PSO.Bridge.exLogS[1]! PSO.Bridge.exLogS[2]! ∧
+    PSO.Bridge.DumpHeld (PSO.Bridge.exLeaderR.log ++ [PSO.Bridge.exLogS[2]!]) PSO.Bridge.exLogS[1]! PSO.Bridge.exLogS[2]! ∧
+    PSO.Bridge.DumpHeld (PSO.Bridge.exLeaderR.log.take 3) PSO.Bridge.exLogS[1]! PSO.Bridge.exLogS[2]! := by
+  have h0 : PSO.Bridge.DumpHeld PSO.Bridge.exLeaderR.log PSO.Bridge.exLogS[1]! PSO.Bridge.exLogS[2]! := by
+    unfold PSO.Bridge.DumpHeld; decide
+  refine ⟨h0, dump_held_after_append _ _ _ _ h0, ?_⟩
+  exact dump_held_after_suffix_cut _ 3 _ _ PSO.Bridge.exLogS[0]! h0 (by decide) (by decide)
+
 end PSO.C06
